@@ -9,14 +9,16 @@
 bool nondet_bool(void); size_t nondet_size_t(void); uint64_t nondet_u64(void);
 
 typedef struct { uint256_c* data; size_t size, cap; } HashVec;                               /* std::vector<uint256> */
-typedef struct { size_t vtx_size; uint256_c hashMerkleRoot; bool m_checked_merkle_root; } CBlockView;
-typedef struct { unsigned nStatus; } BlockIndexView;
+typedef struct { size_t size; unsigned char b[6]; } OutScriptView;                            /* a coinbase output's scriptPubKey: its size and first six bytes */
+typedef struct { size_t n; size_t size0; } WitStackView;                                     /* the coinbase input's witness stack: number of items, size of the first */
+typedef struct { size_t vtx_size; uint256_c hashMerkleRoot; bool m_checked_merkle_root; bool m_checked_witness_commitment; size_t cb_vin_size; size_t cb_vout_size; const OutScriptView* cb_vout; WitStackView cb_witness; } CBlockView;
+typedef struct { unsigned nStatus; int nHeight; } BlockIndexView;
 typedef struct { int mode_invalid; int result; uint32_t reason; } BlockValidationState;      /* VERIF_STUB of ValidationState<BlockValidationResult> */
 static inline bool BlockState_Invalid(BlockValidationState* state, int result, uint32_t reason) { state->result = result; state->reason = reason; state->mode_invalid = 1; return 0; }
 #define U256_EQ(a, b) ((a).w[0] == (b).w[0] && (a).w[1] == (b).w[1] && (a).w[2] == (b).w[2] && (a).w[3] == (b).w[3])
 static inline bool uint256_eq(const uint256_c* a, const uint256_c* b) { return U256_EQ(*a, *b); }   /* VERIF_STUB base_blob::operator== (memcmp over 32 bytes) */
 #define UINT256_ZERO ((uint256_c){{0, 0, 0, 0}})
-#define SPEC_MAXLEN 0x1000000u
+#define SPEC_MAXLEN 0x8000u      /* more entries than a block of 4,000,000 weight units can hold transactions (60 stripped bytes minimum each: 16,666) */
 
 /* ============================ ComputeMerkleRoot ============================ */
 #ifdef C04_TU_CMR
@@ -25,13 +27,14 @@ size_t g_lvl;                          /* levels started so far */
 bool g_pin_valid, g_pin_equal;         /* the pinned level was reached with g_P even and g_P + 1 inside it; the pair there was equal */
 bool g_in_pinned_level, g_level_odd; size_t g_level_size;
 bool g_wit;                            /* some visited even position had an equal pair */
+bool g_hashed;                         /* SHA256D64 ran at least once */
 #ifdef TWIN_ODD_PAIRS
 #define PIN_POS_OK(h) (g_P + 1 < (h)->size)
 #else
 #define PIN_POS_OK(h) ((g_P & 1) == 0 && g_P + 1 < (h)->size)
 #endif
 #define GHOST_LEVEL_STEP(h) do { g_level_size = (h)->size; g_level_odd = ((h)->size & 1) != 0; g_in_pinned_level = (g_lvl == g_L); \
-    if (g_in_pinned_level && PIN_POS_OK(h)) { g_pin_valid = 1; g_pin_equal = U256_EQ((h)->data[g_P], (h)->data[g_P + 1]); } g_lvl = g_lvl + 1; } while (0)
+    if (g_in_pinned_level && PIN_POS_OK(h)) { g_pin_valid = 1; g_pin_equal = U256_EQ((h)->data[g_P], (h)->data[g_P + 1]); } if (g_lvl < SIZE_MAX) g_lvl = g_lvl + 1; } while (0)   /* saturating: the pinned level (g_L < SIZE_MAX) is entered at most once */
 #define GHOST_PAIR_STEP(h, pos) do { if (((pos) & 1) == 0 && (pos) + 1 < (h)->size && U256_EQ((h)->data[pos], (h)->data[(pos) + 1])) g_wit = 1; } while (0)
 static inline void HashVec_push_back(HashVec* v, uint256_c x) { __CPROVER_assert(v->size < v->cap, "push_back within the ghost capacity"); v->data[v->size] = x; v->size = v->size + 1; }
 static inline void HashVec_shrink(HashVec* v, size_t n) { __CPROVER_assert(n <= v->size, "resize() here only shrinks"); v->size = n; }
@@ -40,36 +43,44 @@ static inline void SHA256D64_level(HashVec* v, size_t blocks)          /* VERIF_
     __CPROVER_assert(blocks * 2 == v->size && blocks >= 1, "one level: an even number of entries, size/2 blocks");
     __CPROVER_assert(g_level_odd ? (v->size == g_level_size + 1 && U256_EQ(v->data[v->size - 1], v->data[v->size - 2])) : v->size == g_level_size, "an odd level is completed by a copy of its last entry, an even level is hashed as it is");
 #ifdef VERIF_CBMC
-    __CPROVER_havoc_slice(v->data, blocks * sizeof(uint256_c));
+    g_hashed = 1;
+    __CPROVER_havoc_object(v->data);      /* entries beyond the first `blocks` are dropped by the resize that follows */
 #endif
 }
 #define PIN_DONE_OUTER ((g_pin_valid && mutated != NULL) ==> (g_pin_equal ==> mutation))
 #define LOOP_LEVELS \
-    __CPROVER_assigns(hashes->size, __CPROVER_object_whole(hashes->data), mutation, g_lvl, g_pin_valid, g_pin_equal, g_in_pinned_level, g_level_odd, g_level_size, g_wit) \
-    __CPROVER_loop_invariant(hashes->size < hashes->cap && (__CPROVER_loop_entry(hashes->size) >= 1 ==> hashes->size >= 1)) \
-    __CPROVER_loop_invariant((mutated == NULL ==> !mutation) && (mutation ==> g_wit) && PIN_DONE_OUTER) \
+    __CPROVER_assigns(hashes->size, __CPROVER_object_whole(hashes->data), mutation, g_lvl, g_pin_valid, g_pin_equal, g_in_pinned_level, g_level_odd, g_level_size, g_wit, g_hashed) \
+    __CPROVER_loop_invariant(hashes->size < hashes->cap) \
+    __CPROVER_loop_invariant(__CPROVER_loop_entry(hashes->size) >= 1 ==> hashes->size >= 1) \
+    __CPROVER_loop_invariant(g_hashed || hashes->size == __CPROVER_loop_entry(hashes->size)) \
+    __CPROVER_loop_invariant(mutated == NULL ==> !mutation) \
+    __CPROVER_loop_invariant(mutation ==> g_wit) \
+    __CPROVER_loop_invariant(g_pin_valid ==> g_lvl > g_L) \
+    __CPROVER_loop_invariant(PIN_DONE_OUTER) \
     __CPROVER_decreases(hashes->size)
 #define LOOP_PAIRS \
     __CPROVER_assigns(pos, mutation, g_wit) \
-    __CPROVER_loop_invariant((pos & 1) == 0 && pos <= hashes->size && (mutation ==> g_wit)) \
+    __CPROVER_loop_invariant((pos & 1) == 0) \
+    __CPROVER_loop_invariant(pos <= hashes->size) \
+    __CPROVER_loop_invariant(mutation ==> g_wit) \
     __CPROVER_loop_invariant((g_pin_valid && (!g_in_pinned_level || g_P < pos)) ==> (g_pin_equal ==> mutation)) \
     __CPROVER_decreases(hashes->size - pos)
 VERIF_REACH_DECL(ComputeMerkleRoot)
 uint256_c ComputeMerkleRoot(HashVec* hashes, bool* mutated)
 __CPROVER_requires(__CPROVER_is_fresh(hashes, sizeof(HashVec)) && hashes->cap <= SPEC_MAXLEN && hashes->size < hashes->cap && __CPROVER_is_fresh(hashes->data, sizeof(uint256_c) * hashes->cap))
 __CPROVER_requires(mutated == NULL || __CPROVER_is_fresh(mutated, sizeof(bool)))
-__CPROVER_requires(g_lvl == 0 && !g_pin_valid && !g_wit)
+__CPROVER_requires(g_lvl == 0 && g_L < SIZE_MAX && !g_pin_valid && !g_wit && !g_hashed)
 /* mutated <=> some level of the tree has an equal pair at an even position: (=>) a witness was seen; (<=) whatever level / position is pinned */
 __CPROVER_ensures(mutated != NULL ==> ((*mutated != 0) ==> g_wit))
 __CPROVER_ensures(mutated != NULL ==> ((g_pin_valid && g_pin_equal) ==> (*mutated != 0)))
-__CPROVER_ensures(__CPROVER_old(hashes->size) == 0 ==> (U256_EQ(__CPROVER_return_value, UINT256_ZERO) && g_lvl == 0 && (mutated != NULL ==> *mutated == 0)))
-__CPROVER_ensures(__CPROVER_old(hashes->size) == 1 ==> (U256_EQ(__CPROVER_return_value, __CPROVER_old(hashes->data[0])) && g_lvl == 0 && (mutated != NULL ==> *mutated == 0)))
+__CPROVER_ensures(__CPROVER_old(hashes->size) == 0 ==> (U256_EQ(__CPROVER_return_value, UINT256_ZERO) && !g_hashed && (mutated != NULL ==> *mutated == 0)))
+__CPROVER_ensures(__CPROVER_old(hashes->size) == 1 ==> (U256_EQ(__CPROVER_return_value, __CPROVER_old(hashes->data[0])) && !g_hashed && (mutated != NULL ==> *mutated == 0)))
 __CPROVER_ensures(__CPROVER_old(hashes->size) >= 1 ==> (hashes->size == 1 && U256_EQ(__CPROVER_return_value, hashes->data[0])))
-__CPROVER_ensures(__CPROVER_old(hashes->size) >= 2 ==> g_lvl >= 1)
+__CPROVER_ensures(__CPROVER_old(hashes->size) >= 2 ==> g_hashed)
 VERIF_REACH_ENSURES(ComputeMerkleRoot, mutated != NULL && *mutated && g_lvl >= 3 && g_pin_valid && !g_pin_equal)
 VERIF_REACH_ENSURES(ComputeMerkleRoot, mutated != NULL && !*mutated && g_pin_valid && g_L == 2 && g_P == 4)
 VERIF_REACH_ENSURES(ComputeMerkleRoot, mutated == NULL && g_lvl >= 2)
-__CPROVER_assigns(hashes->size, __CPROVER_object_whole(hashes->data), g_lvl, g_pin_valid, g_pin_equal, g_in_pinned_level, g_level_odd, g_level_size, g_wit; mutated != NULL: *mutated);
+__CPROVER_assigns(hashes->size, __CPROVER_object_whole(hashes->data), g_lvl, g_pin_valid, g_pin_equal, g_in_pinned_level, g_level_odd, g_level_size, g_wit, g_hashed; mutated != NULL: *mutated);
 #define C04_PASS_CMR
 #endif
 
@@ -79,7 +90,8 @@ size_t g_s; uint256_c g_s_hash;        /* pinned transaction position and its id
 uint256_c g_root; bool g_mutated_out; bool g_cut_called; const CBlockView* g_block;
 static inline uint256_c Tx_GetHash(const CBlockView* b, size_t s) { __CPROVER_assert(s < b->vtx_size, "vtx[s] exists"); if (s == g_s) return g_s_hash; uint256_c h; h.w[0] = nondet_u64(); h.w[1] = nondet_u64(); h.w[2] = nondet_u64(); h.w[3] = nondet_u64(); return h; }
 static inline HashVec HashVec_new(void) { HashVec v = {NULL, 0, 0}; return v; }
-static inline void HashVec_resize(HashVec* v, size_t n) { v->data = malloc(sizeof(uint256_c) * (n + 1)); __CPROVER_assume(v->data != NULL); v->size = n; v->cap = n + 1; }   /* VERIF_STUB: zero-fill omitted, every entry is assigned by the loop (checked by the cut point) */
+static inline void HashVec_reserve(HashVec* v, size_t n) { v->data = malloc(sizeof(uint256_c) * (n > 0 ? n : 1)); __CPROVER_assume(v->data != NULL); v->cap = n; }   /* VERIF_STUB std::vector::reserve on an empty vector */
+static inline void HashVec_push_back(HashVec* v, uint256_c x) { __CPROVER_assert(v->size < v->cap, "push_back within the reserved capacity (no reallocation)"); v->data[v->size] = x; v->size = v->size + 1; }
 static inline uint256_c ComputeMerkleRoot_cut(HashVec* leaves, bool* mutated)        /* cut point: what ComputeMerkleRoot is given */
 {
 #ifdef TWIN_LEAF
@@ -88,11 +100,12 @@ static inline uint256_c ComputeMerkleRoot_cut(HashVec* leaves, bool* mutated)   
     __CPROVER_assert(leaves->size == g_block->vtx_size, "one leaf per transaction of the block");
 #endif
     __CPROVER_assert(g_s < leaves->size ==> U256_EQ(leaves->data[g_s], g_s_hash), "leaf s is the id of transaction s (any s)");
+    __CPROVER_assert(leaves->cap >= leaves->size + (leaves->size & 1), "capacity reserved for the duplicated last entry of an odd first level");
     g_cut_called = 1; if (mutated) *mutated = g_mutated_out; return g_root;
 }
 #define LOOP_LEAVES \
-    __CPROVER_assigns(s, __CPROVER_object_whole(leaves->data)) \
-    __CPROVER_loop_invariant(s <= block->vtx_size && leaves->size == block->vtx_size && (g_s < s ==> U256_EQ(leaves->data[g_s], g_s_hash))) \
+    __CPROVER_assigns(s, leaves_v.size, __CPROVER_object_whole(leaves_v.data)) \
+    __CPROVER_loop_invariant(s <= block->vtx_size && leaves_v.size == s && leaves_v.cap == ((block->vtx_size + 1) & ~(size_t)1) && (g_s < s ==> U256_EQ(leaves_v.data[g_s], g_s_hash))) \
     __CPROVER_decreases(block->vtx_size - s)
 uint256_c BlockMerkleRoot(const CBlockView* block, bool* mutated)
 __CPROVER_requires(__CPROVER_is_fresh(block, sizeof(CBlockView)) && block->vtx_size <= SPEC_MAXLEN && g_block == block && !g_cut_called)
@@ -164,6 +177,81 @@ VERIF_REACH_ENSURES(Chainstate_InvalidBlockFound, state->result == BLOCK_CONSENS
 __CPROVER_assigns(pindex->nStatus, g_dirty, g_erased, g_icf);
 #endif
 
+/* ============================ GetWitnessCommitmentIndex / CheckWitnessMalleation ============================ */
+#ifdef C04_TU_WIT
+#define C04_F_WIT
+size_t g_o;                               /* arbitrary output index */
+#define MATCH(k) (block->cb_vout[k].size >= 38 && block->cb_vout[k].b[0] == 0x6a && block->cb_vout[k].b[1] == 0x24 && block->cb_vout[k].b[2] == 0xaa && block->cb_vout[k].b[3] == 0x21 && block->cb_vout[k].b[4] == 0xa9 && block->cb_vout[k].b[5] == 0xed)
+#define LOOP_OUTPUTS \
+    __CPROVER_assigns(o, commitpos) \
+    __CPROVER_loop_invariant(o <= block->cb_vout_size && commitpos >= -1 && (commitpos >= 0 ==> ((size_t)commitpos < o && MATCH((size_t)commitpos)))) \
+    __CPROVER_loop_invariant((g_o < o && (commitpos < 0 || g_o > (size_t)commitpos)) ==> !MATCH(g_o)) \
+    __CPROVER_decreases(block->cb_vout_size - o)
+/* BIP141: the commitment is the LAST coinbase output of at least 38 bytes starting 6a 24 aa 21 a9 ed */
+VERIF_REACH_DECL(GetWitnessCommitmentIndex)
+int GetWitnessCommitmentIndex(const CBlockView* block)
+__CPROVER_requires(__CPROVER_is_fresh(block, sizeof(CBlockView)) && block->cb_vout_size <= SPEC_MAXLEN && (block->vtx_size > 0 ==> __CPROVER_is_fresh(block->cb_vout, sizeof(OutScriptView) * (block->cb_vout_size > 0 ? block->cb_vout_size : 1))))
+__CPROVER_ensures(__CPROVER_return_value >= -1 && (block->vtx_size == 0 ==> __CPROVER_return_value == -1))
+__CPROVER_ensures(__CPROVER_return_value >= 0 ==> ((size_t)__CPROVER_return_value < block->cb_vout_size && MATCH((size_t)__CPROVER_return_value)))
+#ifdef TWIN_FIRST
+__CPROVER_ensures((block->vtx_size > 0 && g_o < block->cb_vout_size && MATCH(g_o)) ==> __CPROVER_return_value <= (int)g_o)
+#else
+__CPROVER_ensures((block->vtx_size > 0 && g_o < block->cb_vout_size && MATCH(g_o)) ==> __CPROVER_return_value >= (int)g_o)
+#endif
+VERIF_REACH_ENSURES(GetWitnessCommitmentIndex, __CPROVER_return_value == 3 && g_o == 1 && MATCH(g_o))
+__CPROVER_assigns();
+
+int g_commitpos; bool g_commit_mismatch; bool g_cmp_called; int g_cmp_pos;
+size_t g_t; bool g_t_haswit;              /* arbitrary transaction index and whether that transaction carries witness data */
+size_t g_w; bool g_w_haswit;              /* last transaction looked at */
+static inline int GetWitnessCommitmentIndex_stub(const CBlockView* b) { return g_commitpos; }           /* its result is an input here; its meaning is the contract above */
+static inline bool WitnessCommitment_mismatch(const CBlockView* b, int commitpos) { g_cmp_called = 1; g_cmp_pos = commitpos; return g_commit_mismatch; }   /* VERIF_STUB: SHA256d(witness root || reserved value) != bytes 6..37 of output commitpos */
+static inline bool Tx_HasWitness(const CBlockView* b, size_t i) { bool h = (i == g_t) ? g_t_haswit : nondet_bool(); g_w = i; g_w_haswit = h; return h; }
+#define VERIF_ASSERT(c) __CPROVER_assert(c, "assert() in the original")
+#define LOOP_HASWIT \
+    __CPROVER_assigns(i_tx, g_w, g_w_haswit) \
+    __CPROVER_loop_invariant(i_tx <= block->vtx_size && (g_t < i_tx ==> !g_t_haswit)) \
+    __CPROVER_decreases(block->vtx_size - i_tx)
+#define WM_COMMITTED (expect_witness_commitment && g_commitpos != -1)
+#define WM_ERR(r) (!__CPROVER_return_value && state->mode_invalid == 1 && state->result == BLOCK_MUTATED && state->reason == (r))
+#define WM_NONCE_OK (block->cb_witness.n == 1 && block->cb_witness.size0 == 32)
+#define WM_CACHED __CPROVER_old(block->m_checked_witness_commitment)
+VERIF_REACH_DECL(CheckWitnessMalleation)
+bool CheckWitnessMalleation(CBlockView* block, bool expect_witness_commitment, BlockValidationState* state)
+__CPROVER_requires(__CPROVER_is_fresh(block, sizeof(CBlockView)) && __CPROVER_is_fresh(state, sizeof(BlockValidationState)) && state->mode_invalid == 0 && block->vtx_size <= SPEC_MAXLEN && !g_cmp_called)
+__CPROVER_requires(g_commitpos >= -1 && (g_commitpos >= 0 ==> (block->vtx_size > 0 && block->cb_vin_size > 0 && (size_t)g_commitpos < block->cb_vout_size)))   /* GetWitnessCommitmentIndex's contract; callers have established that vtx[0] is a coinbase (one input) */
+__CPROVER_ensures((expect_witness_commitment && WM_CACHED) ==> (__CPROVER_return_value && state->mode_invalid == 0 && !g_cmp_called))
+/* BIP141: a committed block carries exactly one 32-byte reserved value in the coinbase witness (nothing else there is covered by any hash), and the commitment matches */
+#ifdef TWIN_NONCE
+__CPROVER_ensures((WM_COMMITTED && !WM_CACHED && block->cb_witness.size0 != 32) ==> WM_ERR(SPEC_R_bad_witness_nonce_size))
+__CPROVER_ensures((WM_COMMITTED && !WM_CACHED && block->cb_witness.n == 2 && block->cb_witness.size0 == 32) ==> __CPROVER_return_value)
+#else
+__CPROVER_ensures((WM_COMMITTED && !WM_CACHED && !WM_NONCE_OK) ==> (WM_ERR(SPEC_R_bad_witness_nonce_size) && !g_cmp_called))
+#endif
+__CPROVER_ensures((WM_COMMITTED && !WM_CACHED && WM_NONCE_OK) ==> (g_cmp_called && g_cmp_pos == g_commitpos))
+__CPROVER_ensures((WM_COMMITTED && !WM_CACHED && WM_NONCE_OK && g_commit_mismatch) ==> WM_ERR(SPEC_R_bad_witness_merkle_match))
+__CPROVER_ensures((WM_COMMITTED && !WM_CACHED && WM_NONCE_OK && !g_commit_mismatch) ==> (__CPROVER_return_value && state->mode_invalid == 0))
+/* no commitment (expected or present): no transaction may carry witness data */
+__CPROVER_ensures(!WM_COMMITTED && !(expect_witness_commitment && WM_CACHED) ==> (!g_cmp_called && ((g_t < block->vtx_size && g_t_haswit) ==> WM_ERR(SPEC_R_unexpected_witness))))
+__CPROVER_ensures((!WM_COMMITTED && !(expect_witness_commitment && WM_CACHED) && !__CPROVER_return_value) ==> (WM_ERR(SPEC_R_unexpected_witness) && g_w < block->vtx_size && g_w_haswit))
+/* the cache bit is set only by a successful commitment check */
+__CPROVER_ensures((block->m_checked_witness_commitment != 0) == (WM_CACHED || (WM_COMMITTED && WM_NONCE_OK && !g_commit_mismatch)))
+VERIF_REACH_ENSURES(CheckWitnessMalleation, WM_ERR(SPEC_R_bad_witness_nonce_size) && block->cb_witness.n == 2 && block->cb_witness.size0 == 32)
+VERIF_REACH_ENSURES(CheckWitnessMalleation, WM_ERR(SPEC_R_unexpected_witness) && g_w > 2)
+VERIF_REACH_ENSURES(CheckWitnessMalleation, __CPROVER_return_value && !WM_CACHED && WM_COMMITTED)
+VERIF_REACH_ENSURES(CheckWitnessMalleation, __CPROVER_return_value && !expect_witness_commitment && block->vtx_size > 2)
+__CPROVER_assigns(block->m_checked_witness_commitment, state->mode_invalid, state->result, state->reason, g_cmp_called, g_cmp_pos, g_w, g_w_haswit);
+#endif
+
+#ifdef C04_TU_CMR
+#define C04_F_CMR
+#endif
+#ifdef C04_TU_BMR
+#define C04_F_BMR
+#endif
+#ifdef C04_TU_REST
+#define C04_F_REST
+#endif
 #include "slices.h"       /* second pass: the extracted functions of this translation unit */
 
 #ifdef C04_TU_CMR
@@ -171,6 +259,11 @@ void h_ComputeMerkleRoot(void) { HashVec* h; bool* m; g_L = nondet_size_t(); g_P
 #endif
 #ifdef C04_TU_BMR
 void h_BlockMerkleRoot(void) { const CBlockView* b; bool* m; g_s = nondet_size_t(); g_block = b; BlockMerkleRoot(b, m); VERIF_REACH_PT("after BlockMerkleRoot"); }
+#endif
+#ifdef C04_TU_WIT
+void h_GetWitnessCommitmentIndex(void) { const CBlockView* b; g_o = nondet_size_t(); VERIF_REACH_ON(GetWitnessCommitmentIndex); GetWitnessCommitmentIndex(b); }
+int nondet_int(void);
+void h_CheckWitnessMalleation(void) { CBlockView* b; BlockValidationState* st; bool e = nondet_bool(); g_commitpos = nondet_int(); g_commit_mismatch = nondet_bool(); g_t = nondet_size_t(); g_t_haswit = nondet_bool(); VERIF_REACH_ON(CheckWitnessMalleation); CheckWitnessMalleation(b, e, st); }
 #endif
 #ifdef C04_TU_REST
 void h_CheckMerkleRoot(void) { CBlockView* b; BlockValidationState* st; g_mutated_in = nondet_bool(); VERIF_REACH_ON(CheckMerkleRoot); CheckMerkleRoot(b, st); }
